@@ -506,7 +506,13 @@ var (
 // registry is listed and filtered again (every kind once right after a use of the registry, in two orders).
 var lateKinds = []string{"ocsp", "crl", "cert", "ocsp", "cert", "crl", "cert", "crl", "ocsp"}
 
-func lateName(i int) string { return fmt.Sprintf("e_verif_late_%d_%s", i, lateKinds[i]) }
+// late names sort alternately before and after every built-in name ("e_a..." < "e_b..." ... < "w_..." < "w_zz...")
+func lateName(i int) string {
+	if i%2 == 0 {
+		return fmt.Sprintf("e_a_verif_late_%d_%s", i, lateKinds[i])
+	}
+	return fmt.Sprintf("w_zz_verif_late_%d_%s", i, lateKinds[i])
+}
 
 // registerLate makes sure the first n late lints are registered in the global registry of this process,
 // using the registry (Names, Filter) between registrations as a long-running program would.
